@@ -453,6 +453,17 @@ func init() {
 	// (expr); matching is native on concrete subjects and an unconstrained Bool
 	// on symbolic ones.
 	m["regexp.Compile"] = func(in *Interp, fr *Frame, args []Value, call *ssa.CallCommon) Value {
+		if ps := args[0].(Str); !ps.IsConcrete() {
+			// a pattern with symbolic bytes may or may not compile: both outcomes are explored
+			in.stubsHit["regexp.Compile of a symbolic pattern: both outcomes (error / opaque regexp) explored"] = true
+			if in.branch(in.freshVar("_regexpok", SBool, 1)) {
+				t := in.P.byPath["regexp"].Type("Regexp").Type()
+				o := in.allocType(t, "regexp.Regexp")
+				o.cells[0] = mkStr(".*")
+				return Tuple{Ptr{o, 0}, Iface{}}
+			}
+			return Tuple{Ptr{}, in.mkError("error parsing regexp: symbolic pattern")}
+		}
 		p := concreteStr(args[0], "regexp pattern")
 		in.stubsHit["regexp (native on concrete subjects; unconstrained Bool on symbolic subjects)"] = true
 		if _, err := regexp.Compile(p); err != nil {
